@@ -109,6 +109,14 @@ class BuiltinsMixin:
                 nonehit = any(c is type(None) for c in classes)
                 isn = self.is_none(v)
                 return [(s, Val(BOOL, z3.If(isn, z3.BoolVal(nonehit), z3.BoolVal(hit))))]
+            if inner.kind in ("ref", "data", "enum") and self.reg.pyclass.get(inner.name) is not None:
+                hit = issubclass(self.reg.pyclass[inner.name], classes)
+                nonehit = any(c is type(None) for c in classes)
+                return [(s, Val(BOOL, z3.If(self.is_none(v), z3.BoolVal(nonehit), z3.BoolVal(hit))))]
+            if inner.kind == "abs" and all(c in (set, frozenset, list, tuple, dict, str, int, bool) for c in classes):
+                return [(s, self.lift(False))]      # an external object (Path, ...) is none of the builtin containers
+        if k == "abs" and all(c in (set, frozenset, list, tuple, dict, str, int, bool) for c in classes):
+            return [(s, self.lift(False))]
         if k in ("ref", "data", "enum"):
             real = self.reg.pyclass.get(v.ty.name)
             if real is not None:
@@ -347,22 +355,33 @@ class BuiltinsMixin:
         raise Unsupported("map over this collection")
 
     def map_collection(self, s, f, v, node):
-        """{f(x) | x in v} for sets, [f(x) ...] for seqs, via a total uninterpreted image of the pure callee."""
+        """{f(x) | x in v} for sets, [f(x) ...] for seqs, via a total uninterpreted image of the pure callee.  The image
+        is a function of the collection (canonical name from the mapped term), so the same map over the same collection is
+        the same term in code and specification."""
+        import hashlib as _h
         et = v.ty.args[0]
-        x = z3.Const(fresh_name("mx"), self.reg.sort(et))
-        outs = self.call(s.copy(), f, [Val(et, x)], {}, node)
+        x0 = z3.Const(fresh_name("mx"), self.reg.sort(et))
+        outs = self.call(s.copy(), f, [Val(et, x0)], {}, node)
         img = self.merge(outs)
+        canon = z3.Const("mapx", self.reg.sort(et))
+        tag = _h.md5(z3.substitute(img.t, (x0, canon)).sexpr().encode()).hexdigest()[:8]
+        x = z3.Const("mx_" + tag, self.reg.sort(et))
+        body_x = z3.substitute(img.t, (x0, x))
+        rty = TSeq(img.ty) if v.ty.kind == "seq" else TSet(img.ty)
+        r = Val(rty, self.uf("image_" + tag, [v.t.sort()], self.reg.sort(rty))(v.t))
+        key = ("map", r.t.get_id())
+        if key in self._strip_done:
+            return r
+        self._strip_done.add(key)
         if v.ty.kind == "seq":
-            r = self.fresh(TSeq(img.ty), "mapped")
-            j = z3.Int(fresh_name("mj"))
+            j = z3.Int("mj_" + tag)
             self.axioms.append(z3.Length(r.t) == z3.Length(v.t))
-            body = z3.substitute(img.t, (x, v.t[j]))
+            body = z3.substitute(img.t, (x0, v.t[j]))
             self.axioms.append(z3.ForAll([j], z3.Implies(z3.And(0 <= j, j < z3.Length(v.t)), r.t[j] == body)))
             return r
-        r = self.fresh(TSet(img.ty), "mapped")
-        y = z3.Const(fresh_name("my"), self.reg.sort(img.ty))
-        self.axioms.append(z3.ForAll([x], z3.Implies(v.t[x], r.t[img.t])))
-        self.axioms.append(z3.ForAll([y], z3.Implies(r.t[y], z3.Exists([x], z3.And(v.t[x], img.t == y)))))
+        y = z3.Const("my_" + tag, self.reg.sort(img.ty))
+        self.axioms.append(z3.ForAll([x], z3.Implies(v.t[x], r.t[body_x])))
+        self.axioms.append(z3.ForAll([y], z3.Implies(r.t[y], z3.Exists([x], z3.And(v.t[x], body_x == y)))))
         return r
 
     # ---- methods of built-in types -----------------------------------------------------------
@@ -483,9 +502,14 @@ class BuiltinsMixin:
         cs = _WS if chars is None else chars
         cls = z3.Union(*[z3.Re(z3.StringVal(c)) for c in cs]) if len(cs) > 1 else z3.Re(z3.StringVal(cs))
         star = z3.Star(cls)
-        res = z3.String(fresh_name("strip"))
-        L = z3.String(fresh_name("stripL"))
-        R = z3.String(fresh_name("stripR"))
+        # total functions of the subject (the decomposition always exists and is unique): the same subject has the same
+        # result wherever it is stripped (code or specification)
+        import hashlib as _h
+        tag = which + "_" + ("ws" if chars is None else _h.md5(chars.encode()).hexdigest()[:6])
+        SS = z3.StringSort()
+        res = self.uf("strip_" + tag, [SS], SS)(r)
+        L = self.uf("stripL_" + tag, [SS], SS)(r)
+        R = self.uf("stripR_" + tag, [SS], SS)(r)
         ax = [r == z3.Concat(L, res, R), z3.InRe(L, star), z3.InRe(R, star)]
         anyc = z3.Full(z3.ReSort(z3.StringSort()))
         if which in ("strip", "lstrip"):
@@ -512,8 +536,15 @@ class BuiltinsMixin:
             if chars == "":
                 return [(s, r)]
         res, ax = self.strip_model(r.t, which, chars)
-        for a in ax:
-            s.assume(a)
+        key = res.get_id()
+        if key not in self._strip_done:
+            self._strip_done.add(key)
+            if self.binder_depth:
+                for a in ax:       # subject mentions bound variables: the facts can only be local
+                    s.assume(a)
+                self._strip_done.discard(key)
+            else:
+                self.axioms.extend(ax)
         return [(s, Val(STR, res))]
 
     def m_str_strip(self, s, r, args, kw, node, bm): return self._strip(s, r, args, "strip")
